@@ -84,9 +84,13 @@ where
         )
         .subscribe(
           move |x| s_next.next(x),
-          move |e| s_error.error(e),
+          move |e| {
+            s_error.error(e);
+            s_error.unsubscribe();
+          },
           move || {
             s_complete.complete();
+            s_complete.unsubscribe();
           },
         ),
       );
